@@ -9,8 +9,10 @@ import (
 	"os"
 	"strings"
 
+	"github.com/codenotary/immudb/embedded/ahtree"
 	"github.com/codenotary/immudb/embedded/htree"
 	"github.com/codenotary/immudb/embedded/store"
+	"verif/mc/merkle"
 )
 
 func v2resp(w *World, s, t int) *Resp {
@@ -78,10 +80,98 @@ func (p *job) rawAPIs(s int) {
 			}
 		}
 	}
+	if p.cfg.Rot == 0 && p.cfg.Ver == 1 {
+		p.rawTree(s)
+	}
 	p.rawLinear(s)
 	p.rawAdvance(s - 1)
 	if p.cfg.Link == "commit" { // entry digests do not depend on the linking pattern
 		p.rawEntries(s)
+	}
+}
+
+// rawTree: the three ahtree verifiers VerifyDualProof is built on, called with the tree proofs of this history under
+// list edits and neighbouring claims (i', j', leaf', root'); oracle = the reference verifiers of package merkle, which
+// reject any proof whose length does not fit the claimed (i, j). (Repaired defect: ahtree used to ignore the length.)
+func (p *job) rawTree(i int) {
+	n := p.H.n
+	leaves, roots := make([]H, n+2), make([]H, n+2)
+	var ls []H
+	for k := 1; k <= n; k++ {
+		leaves[k] = merkle.Leaf(p.H.alh[k][:])
+		ls = append(ls, leaves[k])
+		roots[k] = merkle.Root(ls)
+	}
+	t, dir := smallTree()
+	defer os.RemoveAll(dir)
+	defer t.Close()
+	for k := 1; k <= n; k++ {
+		t.Append(p.H.alh[k][:])
+	}
+	small := []H{leaves[1], roots[n]}
+	for j := i; j <= n; j++ {
+		ip, err := t.InclusionProof(uint64(i), uint64(j))
+		must(err)
+		cp, err := t.ConsistencyProof(uint64(i), uint64(j))
+		must(err)
+		inames, ilists := hlistEdits(ip, small, false)
+		cnames, clists := hlistEdits(cp, small, false)
+		judge := func(api, alter string, ok, ref bool, claim string) {
+			p.t.evals++
+			switch {
+			case ok && !ref:
+				p.t.forged++
+				viol(fmt.Sprintf("accepts-forged api=%s trusted=tree claimed=%s alter=%s honest=(%d,%d) hist=%v", api, claim, alter, i, j, p.cfg),
+					"the ahtree verifier accepts what the reference verifier (audit path / RFC 9162 consistency algorithm with length checks) rejects", map[string]any{"hist": p.cfg, "s": i})
+			case ok:
+				p.t.legit++
+			default:
+				p.t.rejected++
+			}
+		}
+		for _, ci := range []int{i - 1, i, i + 1, j, 0} {
+			for cj := 0; cj <= n+1; cj++ {
+				for _, lf := range []int{i, i - 1, i + 1} {
+					if lf < 1 || lf > n {
+						continue
+					}
+					for _, rt := range []int{cj, j, j - 1, j + 1, i} {
+						if rt < 1 || rt > n {
+							continue
+						}
+						claim := fmt.Sprintf("(i=%d,j=%d,leaf=%d,root=%d)", ci, cj, lf, rt)
+						for li, l := range ilists {
+							ok := false
+							if lib_catch(func() { ok = ahtree.VerifyInclusion(l, uint64(ci), uint64(cj), leaves[lf], roots[rt]) }) {
+								p.t.panics++
+								continue
+							}
+							judge("ahtree.VerifyInclusion", inames[li], ok, merkle.VerifyInclusion(l, uint64(ci), uint64(cj), leaves[lf], roots[rt]), claim)
+							if i == j && ci == cj {
+								if lib_catch(func() { ok = ahtree.VerifyLastInclusion(l, uint64(ci), leaves[lf], roots[rt]) }) {
+									p.t.panics++
+									continue
+								}
+								judge("ahtree.VerifyLastInclusion", inames[li], ok, merkle.VerifyInclusion(l, uint64(ci), uint64(ci), leaves[lf], roots[rt]), claim)
+							}
+						}
+						if lf != i || ci < 1 || ci > n {
+							continue
+						}
+						for li, l := range clists { // consistency: leaf plays no role; old root = roots[ci] or a neighbour
+							for _, ri := range []int{ci, i} {
+								ok := false
+								if lib_catch(func() { ok = ahtree.VerifyConsistency(l, uint64(ci), uint64(cj), roots[ri], roots[rt]) }) {
+									p.t.panics++
+									continue
+								}
+								judge("ahtree.VerifyConsistency", cnames[li], ok, merkle.VerifyConsistency(l, uint64(ci), uint64(cj), roots[ri], roots[rt]), fmt.Sprintf("(i=%d,j=%d,iroot=%d,jroot=%d)", ci, cj, ri, rt))
+							}
+						}
+					}
+				}
+			}
+		}
 	}
 }
 
